@@ -45,7 +45,8 @@ extern void mpt_queue_align(MPT_STRUCT(queue) *queue, size_t pos)
 	}
 	
 	/* split block into upper and lower part */
-	mpt_memrev(addr+queue->off, pv = pos-queue->off, queue->len);
+	pv = pos - pv;
+	mpt_memrev(addr+queue->off, queue->len - pv, queue->len);
 	
 	/* move lower part to buffer data start */
 	if (queue->off)
@@ -55,6 +56,8 @@ extern void mpt_queue_align(MPT_STRUCT(queue) *queue, size_t pos)
 	
 	if (pos != (queue->off + pv))
 		(void) memmove(addr+pos, addr+queue->off+pv, queue->len-pv);
+	
+	queue->off = pos;
 	
 	return;
 }
